@@ -1,4 +1,134 @@
 import AvroModel
-/-! # C03 — container files return exactly the appended values for any writer history -/
+import AvroProofs.Lemmas.Container
+/-!
+# C03 — container files return exactly the appended values for any writer history
+
+`Writer.step` is the model of `writer::Writer` over a perfect sink; `readBlocks` the model of the
+reader's block loop.  The abstract specification is the simplest possible one: *a log of the
+encodings whose append returned `Ok` since the last `reset`* (`logStep`).
+-/
 namespace Avro.C03
+open Avro
+
+/-- An append that returns an error leaves no trace: the pending block and its value count are
+untouched and the output changes at most by the file header. -/
+theorem failed_append_no_trace (cfg : WCfg) (st : WState) (op : WOp)
+    (hop : op = .appendEncodeError ∨ op = .appendRejected) :
+    let st' := (Writer.step cfg st op).1
+    (Writer.step cfg st op).2 = none ∧ st'.buffer = st.buffer ∧ st'.numValues = st.numValues ∧
+    (st'.sink = st.sink ∨ (st.hasHeader = false ∧ st'.sink = st.sink ++ headerBytes cfg st)) := by
+  rcases hop with rfl | rfl
+  · by_cases hh : st.hasHeader = true
+    · simp [Writer.step, writeHeader, hh]
+    · have hf : st.hasHeader = false := by simpa using hh
+      simp [Writer.step, writeHeader, hf]
+  · simp [Writer.step]
+
+/-- **Refinement.** For every history (any interleaving of appends, failing appends, flushes,
+metadata, resets, finishing and reopening), the writer's state is explained by a ghost layout
+`header ++ blocks`, a pending block, and the log of successfully appended encodings — nothing is
+lost, duplicated or reordered across block boundaries. -/
+theorem history_layout (cfg : WCfg) (marker : Bytes) (ops : List WOp)
+    (hok : RunOk cfg { marker := marker } ops) :
+    ∃ g : Ghost, Inv cfg (Writer.run cfg { marker := marker } ops) g ∧
+      g.blocks.flatten ++ g.pending = ops.foldl logStep [] := by
+  have h0 : Inv cfg ({ marker := marker } : WState) ⟨[], [], []⟩ :=
+    ⟨by simp, by simp, by simp, by simp, by simp, by intro h; simp at h⟩
+  obtain ⟨g, hg, ha⟩ := inv_run ops h0 hok
+  exact ⟨g, hg, by simpa [Ghost.all] using ha⟩
+
+/-- **Main theorem.** After any history followed by finishing the writer (`into_inner` or drop),
+the output is `header ++ body` and reading `body` block by block yields exactly the values whose
+append returned `Ok` since the last reset, in order, and ends cleanly.  `val` gives the value each
+encoding denotes; the datum-level facts (every encoding decodes to its value whatever follows,
+C01) are the hypotheses `hdec`/`hun`. -/
+theorem history_read (wcfg : WCfg) (rcfg : Cfg) (marker : Bytes) (ops : List WOp)
+    (f : Reader Value) (val : Bytes → Value)
+    (hok : RunOk wcfg { marker := marker } ops)
+    (hcodec : ∀ x, wcfg.codec.decompress (wcfg.codec.compress x) = .ok x)
+    (hmarker : (Writer.run wcfg { marker := marker } (ops ++ [.finish])).marker.length = 16)
+    (hdec : ∀ enc ∈ appended ops, ∀ rest, f (enc ++ rest) = .ok (val enc, rest))
+    (hun : (∀ enc ∈ appended ops, enc ≠ []) ∨ (∀ enc ∈ appended ops, enc = []))
+    (hl63 : rcfg.lim < 2^63)
+    (hcount : (appended ops).length < 2^63)
+    (hsize : ∀ x : Bytes, x.length ≤ (appended ops).flatten.length → (wcfg.codec.compress x).length ≤ rcfg.lim) :
+    let st := Writer.run wcfg { marker := marker } (ops ++ [.finish])
+    ∃ hdr body, st.sink = hdr ++ body ∧
+      readBlocks rcfg wcfg.codec f st.marker (body.length + 1) body =
+        ((ops.foldl logStep []).map val, .clean) := by
+  intro st
+  have hok' : RunOk wcfg { marker := marker } (ops ++ [.finish]) := RunOk_append ops _ _ hok trivial
+  have h0 : Inv wcfg ({ marker := marker } : WState) ⟨[], [], []⟩ :=
+    ⟨by simp, by simp, by simp, by simp, by simp, by intro h; simp at h⟩
+  -- state before finishing, then the finish step flushes the pending block
+  obtain ⟨g1, hg1, ha1⟩ := inv_run ops h0 hok
+  obtain ⟨g2, hg2, ha2, hp2, _, _⟩ := inv_doFlush hg1
+  have hst : st = (doFlush wcfg (Writer.run wcfg { marker := marker } ops)).1 := by
+    show Writer.run wcfg { marker := marker } (ops ++ [.finish]) = _
+    rw [run_append]; rfl
+  rw [hst]
+  have hlog : g2.blocks.flatten = ops.foldl logStep [] := by
+    have : g2.all = ops.foldl logStep [] := by rw [ha2, ha1]; rfl
+    simpa [Ghost.all, hp2] using this
+  refine ⟨g2.hdr, g2.blocks.flatMap (blkBytes wcfg.codec _), hg2.sink, ?_⟩
+  -- every block's items are among the appended encodings
+  have hmem : ∀ b ∈ g2.blocks, ∀ e ∈ b, e ∈ appended ops := by
+    intro b hb e he
+    have : e ∈ g2.blocks.flatten := List.mem_flatten.mpr ⟨b, hb, he⟩
+    rw [hlog] at this
+    rcases log_subset ops [] e this with h | h
+    · cases h
+    · exact h
+  -- translate the ghost blocks into reader items
+  let toItems : List Bytes → Items := fun b => b.map (fun enc => (val enc, enc))
+  have hpay : ∀ b : List Bytes, (toItems b).payload = b.flatten := by
+    intro b; simp [toItems, Items.payload, Function.comp_def]
+  have hvals : ∀ b : List Bytes, (toItems b).values = b.map val := by
+    intro b; simp [toItems, Items.values, Function.comp_def]
+  have hblk : ∀ b : List Bytes, blockOf wcfg.codec (doFlush wcfg (Writer.run wcfg { marker := marker } ops)).1.marker (toItems b)
+      = blkBytes wcfg.codec (doFlush wcfg (Writer.run wcfg { marker := marker } ops)).1.marker b := by
+    intro b; simp [blockOf, blkBytes, hpay, toItems]
+  have hbody : g2.blocks.flatMap (blkBytes wcfg.codec (doFlush wcfg (Writer.run wcfg { marker := marker } ops)).1.marker)
+      = (g2.blocks.map toItems).flatMap (blockOf wcfg.codec (doFlush wcfg (Writer.run wcfg { marker := marker } ops)).1.marker) := by
+    rw [List.flatMap_map]; congr 1; funext b; exact (hblk b).symm
+  have hm16 : (doFlush wcfg (Writer.run wcfg { marker := marker } ops)).1.marker.length = 16 := by
+    rw [← hst]; exact hmarker
+  -- sizes
+  have hsl : (ops.foldl logStep []).Sublist (appended ops) := by simpa using log_sublist ops []
+  have hsub : ∀ b ∈ g2.blocks, b.flatten.length ≤ (appended ops).flatten.length ∧ b.length ≤ (appended ops).length := by
+    intro b hb
+    constructor
+    · have h1 := flatten_length_le_of_mem hb
+      rw [hlog] at h1
+      exact Nat.le_trans h1 (sublist_flatten_length hsl)
+    · have h1 := length_le_of_mem hb
+      rw [hlog] at h1
+      exact Nat.le_trans h1 hsl.length_le
+  have hall : ∀ its ∈ g2.blocks.map toItems, BlockOk rcfg wcfg.codec f its := by
+    intro its hits
+    obtain ⟨b, hb, rfl⟩ := List.mem_map.mp hits
+    refine ⟨?_, ?_, ?_, hl63, ?_, ?_⟩
+    · have := hg2.nonempty b hb
+      simpa [toItems] using this
+    · have := (hsub b hb).2; simp [toItems]; omega
+    · rw [hpay]; exact hsize _ (hsub b hb).1
+    · intro it hit rest
+      obtain ⟨e, he, rfl⟩ := List.mem_map.mp hit
+      exact hdec e (hmem b hb e he) rest
+    · rcases hun with h | h
+      · left; intro it hit; obtain ⟨e, he, rfl⟩ := List.mem_map.mp hit; exact h e (hmem b hb e he)
+      · right; intro it hit; obtain ⟨e, he, rfl⟩ := List.mem_map.mp hit; exact h e (hmem b hb e he)
+  have hfuel : (g2.blocks.map toItems).length <
+      ((g2.blocks.map toItems).flatMap (blockOf wcfg.codec (doFlush wcfg (Writer.run wcfg { marker := marker } ops)).1.marker)).length + 1 := by
+    have := flatMap_length_ge wcfg.codec (doFlush wcfg (Writer.run wcfg { marker := marker } ops)).1.marker g2.blocks
+    rw [← hbody, List.length_map]; omega
+  have hrd := readBlocks_ok rcfg wcfg.codec f _ hm16 hcodec (g2.blocks.map toItems) hall _ hfuel
+  rw [← hbody] at hrd
+  rw [hrd, ← hlog]
+  congr 1
+  simp only [List.flatMap_map, hvals]
+  induction g2.blocks with
+  | nil => simp
+  | cons b bs ih => simp [ih]
+
 end Avro.C03
